@@ -144,6 +144,55 @@ def _char_lit_end(src, i):
     return -1
 
 
+def split_chains(text: str, recv: str, rwlog) -> str:
+    """R15: a chain of `?`-propagating builder calls on one receiver — `e.a(x)?.b(y)?.c(z)?` — is split into the sequence it
+    abbreviates: `{ e.a(x)?; e.b(y)?; e.c(z)? }` (every minicbor Encoder method returns the encoder it was called on)."""
+    n = 0
+    pos = 0
+    while True:
+        mm = mask(text)
+        mo = re.compile(r'(?<![\w\.])' + re.escape(recv) + r'\.(\w+)\(').search(mm, pos)
+        if not mo:
+            break
+        calls = []
+        i = mo.start()
+        j = mo.end() - 1
+        start = i
+        cur_name = mo.group(1)
+        while True:
+            cp = match_brace(mm, j) if mm[j] == '{' else None
+            # match parentheses
+            depth = 0; k = j
+            while k < len(mm):
+                if mm[k] == '(': depth += 1
+                elif mm[k] == ')':
+                    depth -= 1
+                    if depth == 0: break
+                k += 1
+            args = text[j + 1:k]
+            calls.append((cur_name, args))
+            m2 = re.compile(r'\s*\?\s*\.\s*(\w+)\(').match(mm, k + 1)
+            if not m2:
+                end = k + 1
+                break
+            cur_name = m2.group(1)
+            j = m2.end() - 1
+        if len(calls) >= 2:
+            # the chain must end with `?` for the split to be type-preserving in statement position
+            m3 = re.compile(r'\s*\?').match(mm, end)
+            tail_q = bool(m3)
+            end2 = m3.end() if m3 else end
+            parts = [f"{recv}.{nm}({ar})?" for nm, ar in calls[:-1]] + [f"{recv}.{calls[-1][0]}({calls[-1][1]})" + ("?" if tail_q else "")]
+            new = "{ " + "; ".join(parts) + " }"
+            text = text[:start] + new + text[end2:]
+            pos = start + len(new)
+            n += 1
+        else:
+            pos = end
+    if n:
+        rwlog.append(dict(rule='R15', what=f'`{recv}.a(..)?.b(..)?` builder chains split into the statement sequence they abbreviate', applied=n))
+    return text
+
 def desugar_while_let(text: str, rwlog) -> str:
     """R5e: `while let PAT = EXPR { BODY }` -> `loop { match EXPR { PAT => { BODY } _ => { break; } } }` (the desugaring the Rust
     reference gives), so that the fact established by the last, failing evaluation of EXPR is available after the loop."""
@@ -757,7 +806,17 @@ def build_unit(tmpl_path: str, repo: str, inline=None, pull_consts=None):
             if is_fn and default_rw:
                 subs = subs + [['rw', a_, [], i + 1] for a_ in default_rw]   # unit-wide defaults run after the fn's own rewrites
             if is_fn:
-                _emit_fn(g, meta, tmpl_path, rel, src, m, None if a in ('-', '') else a, b, kv, subs)
+                ctx_ = None if a in ('-', '') else a
+                if kv.get('fallback'):
+                    # `fallback=<file>#<ctx>`: the function is looked up at its primary location first (e.g. an impl that may OVERRIDE a
+                    # trait's provided method); only if it is not defined there is the fallback location (the trait's default body) used
+                    try:
+                        find_fn(src, m, ctx_, b, int(kv.get('nth', 0)))
+                    except ExtractError:
+                        rel, ctx_ = kv['fallback'].split('#', 1)
+                        src, m = load(rel)
+                        kv = {k_: v_ for k_, v_ in kv.items() if k_ not in ('inv', 'params', 'nth')}   # the fallback is not inside the macro
+                _emit_fn(g, meta, tmpl_path, rel, src, m, ctx_, b, kv, subs)
             else:
                 _emit_item(g, meta, tmpl_path, rel, src, m, a, b, kv, subs)
         elif d == 'end':
@@ -828,6 +887,8 @@ def _emit_fn(g, meta, tmpl, rel, src, m, ctx, name, kv, subs):
         text = desugar_enumerate(text, rwlog)
     if kv.get('whilelet') == '1':
         text = desugar_while_let(text, rwlog)
+    if kv.get('chain'):
+        text = split_chains(text, kv['chain'], rwlog)
     if kv.get('attrs') != 'keep':
         text = strip_attrs(text, rwlog)
     if INLINE['names']:
